@@ -154,6 +154,11 @@ def replay(case, acc):
     check(acc, (), case['text'], case.get('with_comments', False), case.get('origin', 'replay'))
 
 
+from harness.shrink import text_shrinker  # noqa: E402
+shrink = text_shrinker(replay, 'text')
+
+
+
 def nontrivial(text, kinds):
     lm = positions.LineMap(text)
     if lm.nlines() < 3:
